@@ -1,5 +1,6 @@
 import BumpVerif.Proofs.StrProgram
-import BumpVerif.Model.Lossy
+import BumpVerif.Proofs.StrLossy
+import BumpVerif.Proofs.StrUtf16
 /-!
 # C14 — `collections::String` behaves like `std`'s `String` and is always UTF-8
 
@@ -13,15 +14,12 @@ namespace Bump.Str
 
 /-! ## the generated width table -/
 
-/-- lead-byte classes of RFC 3629 -/
-def rfcWidth (n : Nat) : Nat :=
-  if n < 0x80 then 1 else if n < 0xC2 then 0 else if n < 0xE0 then 2 else if n < 0xF0 then 3
-  else if n < 0xF5 then 4 else 0
-
-/-- all 256 entries of the regenerated `UTF8_CHAR_WIDTH` agree with RFC 3629 -/
+/-- all 256 entries of the regenerated `UTF8_CHAR_WIDTH` agree with the lead-byte classes of
+RFC 3629 (`rfcWidth`: 00..7F ↦ 1, C2..DF ↦ 2, E0..EF ↦ 3, F0..F4 ↦ 4, everything else ↦ 0);
+checked by kernel evaluation over the whole table -/
 theorem C14_table_rfc3629 :
-    Gen.UTF8_CHAR_WIDTH.length = 256 ∧ ∀ n, n < 256 → Gen.UTF8_CHAR_WIDTH.getD n 0 = rfcWidth n := by
-  decide +kernel
+    Gen.UTF8_CHAR_WIDTH.length = 256 ∧ ∀ n, n < 256 → Gen.UTF8_CHAR_WIDTH.getD n 0 = rfcWidth n :=
+  table_rfc3629
 
 theorem C14_tag_cont : Gen.TAG_CONT_U8 = 128 := by decide
 
@@ -141,6 +139,34 @@ theorem C14_range_end_overflow (s t : Bytes) (take back : Nat) (hv : Valid s) :
     ∧ drain true s .unbounded (.incl (USIZE - 1)) take back false = .panic :=
   ⟨replaceRange_wraps s t, replaceRange_checked s t, drain_wraps s take back hv, drain_checked s take back false⟩
 
+/-! ## decoders -/
+
+/-- **`lossy_valid`**: for every byte string `from_utf8_lossy_in` returns normally (its
+`debug_assert!` cannot fire) and the output is valid UTF-8 -/
+theorem C14_lossy_valid (dbg : Bool) (v : Bytes) : ∃ out, fromUtf8Lossy dbg v = .ok out ∧ Valid out :=
+  fromUtf8Lossy_valid dbg v
+
+/-- **`lossy_id`**: valid input comes back unchanged -/
+theorem C14_lossy_id (dbg : Bool) (v : Bytes) (hv : Valid v) : fromUtf8Lossy dbg v = .ok v := by
+  obtain ⟨l, rfl⟩ := hv; exact fromUtf8Lossy_id dbg l
+
+/-- one iteration of the decoder's loop accepts exactly the scalar values of Unicode Table 3-7
+(`decodeHead`, defined without the width table), with the same length, and rejects the rest -/
+theorem C14_lossy_step_table37 (t : Bytes) :
+    (∀ n, sufStep t = .adv n → ∃ c, decodeHead t = some (c, n)) ∧
+    (∀ k, sufStep t = .err k → decodeHead t = none) := sufStep_decode t
+
+/-- **`from_utf16_in`** errs iff the units contain a lone surrogate (`text16 = none`), else it is
+the UTF-8 encoding of the decoded scalars — hence valid -/
+theorem C14_from_utf16 (us : List Nat) :
+    (fromUtf16 us = match text16 us with | some cs => .ok (encode cs) | none => .err)
+    ∧ (fromUtf16 us = .err ↔ text16 us = none)
+    ∧ (∀ b, fromUtf16 us = .ok b → Valid b) :=
+  ⟨fromUtf16_spec us, fromUtf16_err_iff us, fromUtf16_valid us⟩
+
+example : text16 [0x61, 0xD83D, 0xDE00] = some ['a', '😀'] ∧ text16 [0xDC00] = none ∧ text16 [0xD800, 0x61] = none := by
+  decide
+
 /-! ## the invariant over whole programs -/
 
 /-- **Always UTF-8**: for every program over the methods of the property, every argument (any
@@ -181,5 +207,9 @@ end Bump.Str
 #print axioms Bump.Str.C14_drain_bounds
 #print axioms Bump.Str.C14_replace_range
 #print axioms Bump.Str.C14_range_end_overflow
+#print axioms Bump.Str.C14_lossy_valid
+#print axioms Bump.Str.C14_lossy_id
+#print axioms Bump.Str.C14_lossy_step_table37
+#print axioms Bump.Str.C14_from_utf16
 #print axioms Bump.Str.C14_always_valid
 #print axioms Bump.Str.C14_step_valid
